@@ -52,6 +52,11 @@ pub struct T {
 }
 
 static RUN_EVENTS: Mutex<Option<HashMap<u64, Vec<Value>>>> = Mutex::new(None);
+/// scenarios in progress (for the watchdog: if the whole workload stops making progress, what is pending is reported)
+static ACTIVE: Mutex<Option<HashMap<u64, Arc<RunCtx>>>> = Mutex::new(None);
+static FINISHED_RUNS: AtomicU64 = AtomicU64::new(0);
+/// "frozen actor" scenarios: handlers with work == 9 wait here until the scenario thaws them
+static THAW: Mutex<Option<HashMap<u64, Arc<tokio::sync::Notify>>>> = Mutex::new(None);
 
 fn emit(run: u64, mut v: Value) {
     let t = TICKETS.fetch_add(1, Ordering::SeqCst);
@@ -133,6 +138,12 @@ impl<const K: u32> Message<MsgK<K>> for T {
         self.nh += 1;
         emit(self.cfg.run, json!({"e": "HEnter", "a": self.cfg.name, "hook": "handler", "m": msg.m, "killed": false, "n": self.nh}));
         match msg.work {
+            9 => {
+                let n = THAW.lock().unwrap().as_ref().and_then(|m| m.get(&self.cfg.run).cloned());
+                if let Some(n) = n {
+                    n.notified().await;
+                }
+            }
             1 => tokio::task::yield_now().await,
             2 => tokio::time::sleep(Duration::from_micros(300)).await,
             3 => std::thread::sleep(Duration::from_micros(200)),
@@ -226,14 +237,14 @@ fn model_kind(api: &str, d: u64) -> &'static str {
         "ask" => "ask",
         "tell_with_timeout" => "tellT",
         "ask_with_timeout" => "askT",
-        "blocking_tell" | "blocking_tell_in_rt" => {
+        "blocking_tell" | "blocking_tell_in_rt" | "blocking_tell_in_ct" => {
             if d > 0 {
                 "tellT"
             } else {
                 "tell"
             }
         }
-        "blocking_ask" | "blocking_ask_in_rt" => {
+        "blocking_ask" | "blocking_ask_in_rt" | "blocking_ask_in_ct" => {
             if d > 0 {
                 "askT"
             } else {
@@ -334,12 +345,12 @@ async fn do_async<const K: u32>(ctx: Arc<RunCtx>, r: ActorRef<T>, own: String, s
             (s, x.map(|v| v.0).unwrap_or(0), rt)
         }
         // timeout variants of the blocking API called from inside the runtime must not panic
-        "blocking_tell_in_rt" => {
+        "blocking_tell_in_rt" | "blocking_tell_in_ct" => {
             let x = r.blocking_tell(msg, Some(dur));
             let (s, rt) = res_of(&x);
             (s, 0, rt)
         }
-        "blocking_ask_in_rt" => {
+        "blocking_ask_in_rt" | "blocking_ask_in_ct" => {
             let x = r.blocking_ask(msg, Some(dur));
             let (s, rt) = res_of(&x);
             (s, x.map(|v| v.0).unwrap_or(0), rt)
@@ -466,6 +477,7 @@ async fn scenario(run: u64, seed: u64, feats: Value, mix: &str) -> Vec<Value> {
     emit(run, json!({"e": "Spawn", "a": name, "cap": cap, "id": aref.identity().id, "h": 0}));
     let ctx = Arc::new(RunCtx { run, t0: Instant::now(), next_op: AtomicU64::new(1), next_m: AtomicU64::new(1),
                                 pending: Mutex::new(BTreeSet::new()), target: name.clone() });
+    ACTIVE.lock().unwrap().get_or_insert_with(HashMap::new).insert(run, ctx.clone());
     let n_async = if mix == "blocking" { rng.random_range(0..2) } else { rng.random_range(1..4) };
     let n_block = if mix == "async" { 0 } else { rng.random_range(1..4) };
     let mut tasks = Vec::new();
@@ -507,6 +519,26 @@ async fn scenario(run: u64, seed: u64, feats: Value, mix: &str) -> Vec<Value> {
         } else {
             threads.push(std::thread::spawn(body));
         }
+    }
+    // a caller sitting in async code of its own current-thread runtime (the timeout variants of the blocking API
+    // must work there too: no panic, and the deadline is honoured although this thread is the only one driving it)
+    if mix != "async" && rng.random_range(0..3) == 0 {
+        let k_ops = rng.random_range(1..4);
+        let mut specs = Vec::new();
+        for _ in 0..k_ops {
+            let api = if rng.random_range(0..2) == 0 { "blocking_tell_in_ct" } else { "blocking_ask_in_ct" };
+            specs.push((slot, OpSpec { api, d: *[5u64, 20, 40].get(rng.random_range(0..3)).unwrap(), work: rng.random_range(0..4), erased: false }));
+            slot += 1;
+        }
+        let (ctx2, r2) = (ctx.clone(), aref.clone());
+        threads.push(std::thread::spawn(move || {
+            let rt = tokio::runtime::Builder::new_current_thread().enable_time().build().unwrap();
+            rt.block_on(async move {
+                for (k, spec) in specs {
+                    with_k!(k, do_async_boxed, ctx2.clone(), r2.clone(), "t0".to_string(), spec).await;
+                }
+            });
+        }));
     }
     // controller
     let delay_us = rng.random_range(0..1500);
@@ -554,6 +586,94 @@ async fn scenario(run: u64, seed: u64, feats: Value, mix: &str) -> Vec<Value> {
     let (dmax, davail, dstrong, dclosed) = probe.__verif_counts();
     emit(run, json!({"e": "Quiescent", "pending": pending, "unjoined": unjoined, "wf": [], "now": ctx.now_ceil(),
                      "diag": {"max": dmax, "avail": davail, "strong": dstrong, "closed": dclosed}}));
+    if let Some(m) = ACTIVE.lock().unwrap().as_mut() {
+        m.remove(&run);
+    }
+    FINISHED_RUNS.fetch_add(1, Ordering::SeqCst);
+    take_run(run)
+}
+
+/// C17: "given a timeout they return by the deadline even if the actor never responds or the mailbox stays full".
+/// The actor is frozen in its first handler with its capacity-1 mailbox full; callers on a plain thread, in
+/// spawn_blocking, in async code of the multi-thread runtime and in async code of their own current-thread runtime use
+/// the timeout variants. Nothing moves until every caller has returned (or 2.5 s have passed).
+async fn frozen_scenario(run: u64, seed: u64, feats: Value) -> Vec<Value> {
+    let mut rng = StdRng::seed_from_u64(seed);
+    let name = format!("s{run}");
+    emit(run, json!({"e": "Reset", "run": run, "feats": feats, "strict": false, "seed": seed}));
+    let thaw = Arc::new(tokio::sync::Notify::new());
+    THAW.lock().unwrap().get_or_insert_with(HashMap::new).insert(run, thaw.clone());
+    let cfg = TCfg { run, name: name.clone(), start: "ok", stop: "ok", panic_on: 0, run_script: vec!["false"] };
+    let (aref, jh) = rsactor::spawn_with_mailbox_capacity::<T>(cfg, 1);
+    let probe = ActorRef::downgrade(&aref);
+    register_id(aref.identity().id, &name);
+    emit(run, json!({"e": "Spawn", "a": name, "cap": 1, "id": aref.identity().id, "h": 0}));
+    let ctx = Arc::new(RunCtx { run, t0: Instant::now(), next_op: AtomicU64::new(1), next_m: AtomicU64::new(1),
+                                pending: Mutex::new(BTreeSet::new()), target: name.clone() });
+    ACTIVE.lock().unwrap().get_or_insert_with(HashMap::new).insert(run, ctx.clone());
+    // freeze the actor in a handler and fill its only slot
+    do_async::<0>(ctx.clone(), aref.clone(), "c0".into(), OpSpec { api: "tell", d: 0, work: 9, erased: false }).await;
+    for _ in 0..200 {
+        if probe.__verif_counts().1 == 1 {
+            break; // the frozen message has been taken: the slot is free again
+        }
+        tokio::time::sleep(Duration::from_millis(1)).await;
+    }
+    do_async::<1>(ctx.clone(), aref.clone(), "c0".into(), OpSpec { api: "tell", d: 0, work: 0, erased: false }).await;
+    let ds = [20u64, 40, 60];
+    let mut tasks = Vec::new();
+    let mut threads = Vec::new();
+    let mut slot = 2u32;
+    let mut pick = |rng: &mut StdRng, apis: [&'static str; 2]| {
+        let s = OpSpec { api: apis[rng.random_range(0..2)], d: ds[rng.random_range(0..3)], work: 0, erased: rng.random_range(0..3) == 0 };
+        slot += 1;
+        (slot - 1, s)
+    };
+    let (k, spec) = pick(&mut rng, ["blocking_tell", "blocking_ask"]);
+    let (c2, r2) = (ctx.clone(), aref.clone());
+    threads.push(std::thread::spawn(move || with_k!(k, do_blocking, c2, r2, "b0".to_string(), spec)));
+    let (k, spec) = pick(&mut rng, ["blocking_tell", "blocking_ask"]);
+    let (c2, r2) = (ctx.clone(), aref.clone());
+    tasks.push(tokio::task::spawn_blocking(move || with_k!(k, do_blocking, c2, r2, "b1".to_string(), spec)));
+    let (k, spec) = pick(&mut rng, ["blocking_tell_in_rt", "blocking_ask_in_rt"]);
+    let (c2, r2) = (ctx.clone(), aref.clone());
+    tasks.push(tokio::spawn(async move { with_k!(k, do_async_boxed, c2, r2, "c1".to_string(), spec).await }));
+    let (k, spec) = pick(&mut rng, ["tell_with_timeout", "ask_with_timeout"]);
+    let (c2, r2) = (ctx.clone(), aref.clone());
+    tasks.push(tokio::spawn(async move { with_k!(k, do_async_boxed, c2, r2, "c2".to_string(), spec).await }));
+    let (k, spec) = pick(&mut rng, ["blocking_tell_in_ct", "blocking_ask_in_ct"]);
+    let (c2, r2) = (ctx.clone(), aref.clone());
+    threads.push(std::thread::spawn(move || {
+        let rt = tokio::runtime::Builder::new_current_thread().enable_time().build().unwrap();
+        rt.block_on(async move { with_k!(k, do_async_boxed, c2, r2, "t0".to_string(), spec).await });
+    }));
+    let deadline = Instant::now() + Duration::from_millis(2500);
+    for t in tasks {
+        let left = deadline.saturating_duration_since(Instant::now());
+        let _ = tokio::time::timeout(left, t).await;
+    }
+    for th in &threads {
+        while !th.is_finished() && Instant::now() < deadline {
+            tokio::time::sleep(Duration::from_millis(2)).await;
+        }
+    }
+    // what has not returned by now (the longest timeout is 60 ms) is reported as pending BEFORE anything is thawed
+    let pending: Vec<u64> = ctx.pending.lock().unwrap().iter().cloned().collect();
+    let (dmax, davail, dstrong, dclosed) = probe.__verif_counts();
+    emit(run, json!({"e": "Quiescent", "pending": pending, "unjoined": [], "wf": [], "now": ctx.now_ceil(),
+                     "diag": {"max": dmax, "avail": davail, "strong": dstrong, "closed": dclosed}}));
+    thaw.notify_one();
+    let _ = aref.kill();
+    drop(aref);
+    let _ = tokio::time::timeout(Duration::from_millis(1000), jh).await;
+    if let Some(m) = THAW.lock().unwrap().as_mut() {
+        m.remove(&run);
+    }
+    if let Some(m) = ACTIVE.lock().unwrap().as_mut() {
+        m.remove(&run);
+    }
+    FINISHED_RUNS.fetch_add(1, Ordering::SeqCst);
+    // events logged after this point (ops released by the thaw) do not belong to the judged trace
     take_run(run)
 }
 
@@ -566,38 +686,92 @@ pub fn slot_of_type(name: &str) -> Option<u32> {
 pub fn run_stress(iters: u64, seed: u64, par: usize, mix: &'static str, out: &str, feats: Value) -> (u64, u64) {
     USE_TICKETS.store(true, Ordering::SeqCst);
     let _ = LOG.lock().map(|mut g| g.clear());
-    let rt = tokio::runtime::Builder::new_multi_thread().worker_threads(12).enable_time().build().unwrap();
-    let mut o = std::io::BufWriter::new(std::fs::File::create(out).unwrap());
-    let mut events = 0u64;
-    let mut done = 0u64;
-    use std::io::Write;
-    rt.block_on(async {
-        let mut next = 1u64;
-        while next <= iters {
-            let mut batch = Vec::new();
-            for _ in 0..par {
-                if next > iters {
-                    break;
+    let out_path = out.to_string();
+    let (txd, rxd) = std::sync::mpsc::channel::<(u64, u64)>();
+    let sink: Arc<Mutex<Vec<Value>>> = Arc::new(Mutex::new(Vec::new()));
+    let sink2 = sink.clone();
+    // the workload runs on its own thread so that a workload that stops making progress altogether (every worker
+    // blocked) cannot take the harness with it
+    std::thread::spawn(move || {
+        let rt = tokio::runtime::Builder::new_multi_thread().worker_threads(12).enable_time().build().unwrap();
+        let mut events = 0u64;
+        let mut done = 0u64;
+        rt.block_on(async {
+            let mut next = 1u64;
+            while next <= iters {
+                let mut batch = Vec::new();
+                for _ in 0..par {
+                    if next > iters {
+                        break;
+                    }
+                    let run = next;
+                    next += 1;
+                    let f = feats.clone();
+                    if mix == "frozen" {
+                        batch.push(tokio::spawn(frozen_scenario(run, seed.wrapping_mul(1_000_003).wrapping_add(run), f)));
+                    } else {
+                        batch.push(tokio::spawn(scenario(run, seed.wrapping_mul(1_000_003).wrapping_add(run), f, mix)));
+                    }
                 }
-                let run = next;
-                next += 1;
-                let f = feats.clone();
-                batch.push(tokio::spawn(scenario(run, seed.wrapping_mul(1_000_003).wrapping_add(run), f, mix)));
-            }
-            for b in batch {
-                if let Ok(evs) = b.await {
-                    done += 1;
-                    events += evs.len() as u64;
-                    for e in &evs {
-                        serde_json::to_writer(&mut o, e).unwrap();
-                        o.write_all(b"\n").unwrap();
+                for b in batch {
+                    if let Ok(evs) = b.await {
+                        done += 1;
+                        events += evs.len() as u64;
+                        sink2.lock().unwrap().extend(evs);
                     }
                 }
             }
-        }
+        });
+        let _ = txd.send((done, events));
+        rt.shutdown_timeout(Duration::from_millis(200));
     });
+    // watchdog: wait for completion as long as scenarios keep finishing
+    let mut last = 0u64;
+    let mut stalled = 0u32;
+    let result = loop {
+        match rxd.recv_timeout(Duration::from_secs(2)) {
+            Ok(r) => break Some(r),
+            Err(_) => {
+                let f = FINISHED_RUNS.load(Ordering::SeqCst);
+                if f == last {
+                    stalled += 1;
+                } else {
+                    stalled = 0;
+                    last = f;
+                }
+                if stalled >= 8 {
+                    break None;
+                }
+            }
+        }
+    };
+    let (done, mut events) = result.unwrap_or((FINISHED_RUNS.load(Ordering::SeqCst), 0));
+    let mut all: Vec<Value> = std::mem::take(&mut *sink.lock().unwrap());
+    if result.is_none() {
+        // nothing has finished for 16 s: report every scenario still in progress with what it has pending
+        let active: Vec<(u64, Arc<RunCtx>)> = ACTIVE.lock().unwrap().as_ref().map(|m| m.iter().map(|(k, v)| (*k, v.clone())).collect()).unwrap_or_default();
+        for (run, ctx) in active {
+            let pending: Vec<u64> = ctx.pending.lock().unwrap().iter().cloned().collect();
+            emit(run, json!({"e": "Quiescent", "pending": pending, "unjoined": [ctx.target.clone()], "wf": [], "now": ctx.now_ceil(),
+                             "stalled": true}));
+            all.extend(take_run(run));
+        }
+        eprintln!("stress: workload stalled; {} scenarios reported as stuck", ACTIVE.lock().unwrap().as_ref().map(|m| m.len()).unwrap_or(0));
+    }
+    use std::io::Write;
+    let mut o = std::io::BufWriter::new(std::fs::File::create(&out_path).unwrap());
+    for e in &all {
+        serde_json::to_writer(&mut o, e).unwrap();
+        o.write_all(b"\n").unwrap();
+    }
     o.flush().unwrap();
-    rt.shutdown_timeout(Duration::from_millis(200));
+    if events == 0 {
+        events = all.len() as u64;
+    }
+    if result.is_none() {
+        println!("stress: runs={done} events={events} STALLED");
+        std::process::exit(0);
+    }
     (done, events)
 }
 
